@@ -276,6 +276,7 @@ func posMonitor(args []string) int {
 			}
 			return map[string]interface{}{"root": g.Root, "moves": movesUci(g.Moves), "fen": p.StringFen(), "phase_clamp_reachable": reach}
 		}
+		setCurrent(map[string]interface{}{"root": g.Root, "moves": movesUci(g.Moves), "fen": p.StringFen(), "what": "do/undo excursions, copies and successor checks on this position"})
 		// --- C04: incremental vs fresh-from-FEN vs recomputed
 		cur := snap(p, ev, false)
 		fresh, err := position.NewPositionFen(p.StringFen())
@@ -336,6 +337,30 @@ func posMonitor(args []string) int {
 					rep.Violate("incremental-differs-from-fresh", vi, "after a null move: "+fmt.Sprint(d))
 				}
 				rep.Stats["null_successors_checked"]++
+			}
+		}
+		// a value copy of a position (the search works on one, so does every caller that probes a move) is independent
+		// of the original: moves made on the copy at the same history depth must not disturb the original's undo
+		if rng.Chance(30) {
+			cp := *p
+			lm := w.legalMoves(&cp)
+			if len(lm) >= 2 {
+				m1, m2 := lm[rng.Intn(len(lm))], lm[rng.Intn(len(lm))]
+				before := snap(p, nil, true)
+				q := *p
+				p.DoMove(m1)
+				q.DoMove(m2)
+				q.UndoMove()
+				q.DoNullMove()
+				q.UndoNullMove()
+				p.UndoMove()
+				if d := before.diff(snap(p, nil, true)); len(d) > 0 {
+					v := in()
+					v["fields"] = diffKeys(d)
+					v["path"] = m1.StringUci() + " on the position, " + m2.StringUci() + " and a null move on a value copy of it in between"
+					rep.Violate("undo-does-not-restore", v, fmt.Sprint(d))
+				}
+				rep.Stats["value_copy_independence_checks"]++
 			}
 		}
 		// the key separates single-component differences: the same position without its en-passant square,
